@@ -46,6 +46,10 @@ type Store struct {
 		m map[string]*cachedSecret // :: secret name → active value
 		f map[string]Secret        // :: secret name → fetch function
 		w map[string][]watcher     // :: secret name → watchers
+
+		// stale is set when writing the cache failed, so that the next poll
+		// writes it again even if it finds nothing new.
+		stale bool
 	}
 
 	ctx    context.Context    // governs the polling task and lookups
@@ -609,11 +613,11 @@ func (s *Store) run(ctx context.Context, interval time.Duration, done chan<- str
 // applyUpdates applies the specified updates to the secret values, and if a
 // cache is present flushes the data to the cache.
 func (s *Store) applyUpdates(updates map[string]*api.SecretValue) error {
-	if len(updates) == 0 {
-		return nil // nothing to do
-	}
 	s.active.Lock()
 	defer s.active.Unlock()
+	if len(updates) == 0 && !s.active.stale {
+		return nil // nothing to do
+	}
 	for name, sv := range updates {
 		if sv == nil {
 			// This is an undeclared secret that has expired.
@@ -655,8 +659,10 @@ func (s *Store) flushCacheLocked() error {
 	if err != nil {
 		return fmt.Errorf("encoding state: %w", err)
 	} else if err := s.cache.Write(data); err != nil {
+		s.active.stale = true
 		return fmt.Errorf("updating cache: %w", err)
 	}
+	s.active.stale = false
 	return nil
 }
 
